@@ -20,6 +20,7 @@
 #include "QXmppMamIq.h"
 #include "QXmppOutOfBandUrl.h"
 #include "QXmppPubSubAffiliation.h"
+#include "QXmppPubSubSubscription.h"
 #include "QXmppPubSubBaseItem.h"
 #include "QXmppPubSubIq_p.h"
 #include "QXmppDataForm.h"
@@ -356,6 +357,7 @@ struct ClassEntry {
     bool iqPayload = false;
     bool streamChild = false;
     QString sortTag;           // see g_sortTag
+    QByteArray wrapNs;         // parsed as the child of an element in this namespace (the class reads its own namespaceURI())
     QString skipRootTag;       // documents whose root element has this name are outside the class's model  // parsed as a child of <stream:stream> (prefix `stream` bound there)
     std::vector<std::string> fieldNames;
     // real parse + serialize + field report; false = rejected by the class's own type check
@@ -917,6 +919,62 @@ static std::vector<ClassEntry> classTable()
             [=](const QXmppVCardPhone &o) { Vals v = fl(int(o.type()), 13); v.push_back(vR({ vS(o.number()) })); return v; },
             [=](const Vals &v) { QXmppVCardPhone o; o.setType(QXmppVCardPhone::Type(bitsOf(v, 13))); o.setNumber(v.at(13).items.at(0).s); return o; });
     }
+    {
+        auto optI = [](int i) { return i < 0 ? vO(false) : vO(true, quint64(i)); };
+        auto intOf = [](const Val &w) { const Val &o = w.items.at(0); return o.has ? int(o.n) : -1; };
+        auto optS = [](const QString &s) { return s.isNull() ? vA() : vR({ vS(s) }); };
+        auto strOf = [](const Val &w) { if (w.kind != 'R') return QString(); QString s = w.items.at(0).s; return s.isNull() ? QString("") : s; };
+        t.push_back(payload<QXmppMamQueryIq>("MamQueryIq", { "node", "queryId", "form", "resultSetQuery" },
+            [=](const QXmppMamQueryIq &o) {
+                auto q = o.resultSetQuery();
+                return Vals { vS(o.node()), vS(o.queryId()), formVals(o.form()), vR({ vR({ optI(q.max()) }), optS(q.after()), optS(q.before()), vR({ optI(q.index()) }) }) };
+            },
+            [=](QXmppMamQueryIq &o, const Vals &v) {
+                o.setNode(v.at(0).s); o.setQueryId(v.at(1).s); o.setForm(formOf(v.at(2)));
+                QXmppResultSetQuery q; auto &f = v.at(3).items; q.setMax(intOf(f.at(0))); q.setAfter(strOf(f.at(1))); q.setBefore(strOf(f.at(2))); q.setIndex(intOf(f.at(3)));
+                o.setResultSetQuery(q);
+            }));
+    }
+    {
+        // QXmppPubSubSubscription: what parse() reads depends on the namespace the element is in; one entry per namespace
+        using S = QXmppPubSubSubscription;
+        auto stateV = [](const S &o) { return int(o.state()) == 0 ? vO(false) : vO(true, quint64(int(o.state()) - 1)); };
+        auto stateOf = [](const Val &v) { return v.has ? S::State(int(v.n) + 1) : S::Invalid; };
+        auto entry = [&t](const std::string &name, const char *ns, std::vector<std::string> fields, std::function<Vals(const S &)> tv, std::function<S(const Vals &)> fv) {
+            ClassEntry e; e.name = name; e.cxx = "QXmppPubSubSubscription"; e.fieldNames = fields; e.wrapNs = ns;
+            QString nsq = QString::fromLatin1(ns);
+            e.run = [tv, nsq](const QDomElement &el, QByteArray &out, Vals &vals) {
+                S o; o.parse(el); out = ser(o); vals = tv(o);
+                if (el.namespaceURI() != nsq) g_outsideModel = true;   // re-namespaced root: another schema's case
+                return true;
+            };
+            e.build = [fv, tv](const Vals &v, Vals &rep) { S o = fv(v); rep = tv(o); return ser(o); };
+            t.push_back(e);
+        };
+        entry("PubSubSubscription", "http://jabber.org/protocol/pubsub", { "jid", "node", "state", "subId", "configurationSupport" },
+            [=](const S &o) {
+                if (o.expiry().isValid()) g_outsideModel = true;
+                auto cs = o.configurationSupport();
+                return Vals { vS(o.jid()), vS(o.node()), stateV(o), vS(o.subId()), cs == S::Unavailable ? vA() : vR({ cs == S::Required ? vR({}) : vA() }) };
+            },
+            [=](const Vals &v) {
+                S o; o.setJid(v.at(0).s); o.setNode(v.at(1).s); o.setState(stateOf(v.at(2))); o.setSubId(v.at(3).s);
+                o.setConfigurationSupport(v.at(4).kind != 'R' ? S::Unavailable : v.at(4).items.at(0).kind == 'R' ? S::Required : S::Available);
+                return o;
+            });
+        entry("PubSubSubscriptionEvent", "http://jabber.org/protocol/pubsub#event", { "jid", "node", "state", "subId", "expiry" },
+            [=](const S &o) {
+                if (o.configurationSupport() != S::Unavailable) g_outsideModel = true;
+                return Vals { vS(o.jid()), vS(o.node()), stateV(o), vS(o.subId()), vD(o.expiry()) };
+            },
+            [=](const Vals &v) { S o; o.setJid(v.at(0).s); o.setNode(v.at(1).s); o.setState(stateOf(v.at(2))); o.setSubId(v.at(3).s); o.setExpiry(dateOf(v.at(4))); return o; });
+        entry("PubSubSubscriptionOwner", "http://jabber.org/protocol/pubsub#owner", { "jid", "state" },
+            [=](const S &o) {
+                if (o.configurationSupport() != S::Unavailable || o.expiry().isValid() || !o.node().isEmpty() || !o.subId().isEmpty()) g_outsideModel = true;
+                return Vals { vS(o.jid()), stateV(o) };
+            },
+            [=](const Vals &v) { S o; o.setJid(v.at(0).s); o.setState(stateOf(v.at(1))); return o; });
+    }
     return t;
 }
 
@@ -926,10 +984,11 @@ static bool runReal(const ClassEntry &c, const QByteArray &xml, QByteArray &out,
     QByteArray text = c.iqPayload ? QByteArray("<iq xmlns=\"jabber:client\">") + xml + "</iq>"
         : c.streamChild ? QByteArray("<stream:stream xmlns=\"jabber:client\" xmlns:stream=\"http://etherx.jabber.org/streams\">") + xml + "</stream:stream>"
                         : xml;
+    if (!c.wrapNs.isEmpty()) text = QByteArray("<w xmlns=\"") + c.wrapNs + "\">" + xml + "</w>";
     QDomDocument doc;
     wellFormed = doc.setContent(text, true);
     if (!wellFormed) return false;
-    if (c.streamChild) {
+    if (c.streamChild || !c.wrapNs.isEmpty()) {
         auto el = doc.documentElement().firstChildElement();
         if (el.isNull()) { wellFormed = false; return false; }
         return c.run(el, out, vals);
@@ -1176,6 +1235,8 @@ int main(int argc, char **argv)
             { "ResultSetReply", "<x><set xmlns=\"http://jabber.org/protocol/rsm\"><first index=\"-7\"/></set></x>" },
             // tls-0rtt dropped by toXml before /repo e3c2af8
             { "FastFeature", "<fast xmlns=\"urn:xmpp:fast:0\" tls-0rtt=\"true\"/>" },
+            // MAM query id read from `queryId`, written as `queryid`: the first pass writes it, the second loses it (recorded finding)
+            { "MamQueryIq", "<query xmlns=\"urn:xmpp:mam:2\" queryId=\"q1\"/>" },
         };
         for (auto &row : CORPUS)
             for (auto &c : table)
